@@ -162,18 +162,40 @@ def material(alg, enc, ser, n, haad, aligned=False) -> Material:
     return _MAT[k]
 
 
+def call_style(sc) -> int:
+    import zlib
+    st = zlib.crc32(json.dumps([sc["w"], sc["edits"], sc["key"]], sort_keys=True).encode()) % 4
+    # the model judges header members the strict way; a registry that tolerates unregistered names is used only where the
+    # attacker added none to the (unauthenticated) per-recipient header
+    if any(r["mod"] in ("epk_other", "epk_bad", "hdr_unknown") for r in sc["w"]["recs"]):
+        return 0 if st in (0, 2, 3) and not sc["anyrec"] else (1 if not sc["anyrec"] else 0)
+    return st
+
+
 def decrypt(sc, m: Material, tok):
     from joserfc import jwe
     key = J.jkey(m.r1 if sc["key"] == "R1" else m.r2)
     kw = {}
     if m.is1pu:
         kw["sender_key"] = J.jkey(R.public_jwk(m.s1 if sc["sender"] == "S1" else m.s2))
-    reg = jwe.JWERegistry(algorithms=[m.alg, m.enc, "DEF"], verify_all_recipients=not sc["anyrec"])
+    names = [m.alg, m.enc, "DEF"]
+    # the ways a caller conveys its configuration; only verify_all_recipients=False is an opt-in to any-recipient validation
+    style = call_style(sc)
+    if sc["anyrec"]:
+        kw["registry"] = jwe.JWERegistry(algorithms=names, verify_all_recipients=False, strict_check_header=style % 2 == 0)
+    elif style == 0:
+        kw["registry"] = jwe.JWERegistry(algorithms=names)
+    elif style == 1:
+        kw["algorithms"] = names
+    elif style == 2:
+        kw["algorithms"] = names; kw["registry"] = jwe.JWERegistry(strict_check_header=False)
+    else:
+        kw["registry"] = jwe.JWERegistry(algorithms=names, strict_check_header=False)
     try:
         if sc["w"]["ser"] == "compact":
-            o = jwe.decrypt_compact(tok, key, registry=reg, **kw)
+            o = jwe.decrypt_compact(tok, key, **kw)
         else:
-            o = jwe.decrypt_json(tok, key, registry=reg, **kw)
+            o = jwe.decrypt_json(tok, key, **kw)
         return "ok", o.plaintext
     except BaseException as e:  # noqa
         if isinstance(e, (KeyboardInterrupt, SystemExit)):
